@@ -20,11 +20,13 @@ Hypothesis HIdx : forall a i, P a -> P i -> P (Idx a i).
 Hypothesis HMem : forall a m, P a -> P (Mem a m).
 Hypothesis HArrow : forall a m, P a -> P (Arrow a m).
 Hypothesis HCall : forall f args, Forall P args -> P (Call f args).
+Hypothesis HMCall : forall ar a m args, P a -> Forall P args -> P (MCall ar a m args).
 Hypothesis HTern : forall c a b, P c -> P a -> P b -> P (Tern c a b).
 Hypothesis HAsg : forall o l r, P l -> P r -> P (Asg o l r).
 Hypothesis HEProp : forall a, P a -> P (EProp a).
 Hypothesis HCast : forall ty a, P a -> P (Cast ty a).
 Hypothesis HGeneric : forall n a, P a -> P (Generic n a).
+Hypothesis HSizeofT : P SizeofT.
 
 Fixpoint expr_ind2 (e : expr) : P e :=
   match e with
@@ -44,32 +46,87 @@ Fixpoint expr_ind2 (e : expr) : P e :=
                        | [] => Forall_nil P
                        | a :: l' => Forall_cons a (expr_ind2 a) (go l')
                        end) args)
+  | MCall ar a m args =>
+      HMCall ar a m args (expr_ind2 a)
+             ((fix go (l : list expr) : Forall P l :=
+                 match l with
+                 | [] => Forall_nil P
+                 | a :: l' => Forall_cons a (expr_ind2 a) (go l')
+                 end) args)
   | Tern c a b => HTern c a b (expr_ind2 c) (expr_ind2 a) (expr_ind2 b)
   | Asg o l r => HAsg o l r (expr_ind2 l) (expr_ind2 r)
   | EProp a => HEProp a (expr_ind2 a)
   | Cast ty a => HCast ty a (expr_ind2 a)
   | Generic n a => HGeneric n a (expr_ind2 a)
+  | SizeofT => HSizeofT
   end.
 End ExprInd.
 
 (* ------------------------------------------------------------------ the hazard predicate *)
-Lemma safe_after xs t ys : safeb (xs ++ t :: ys) = true -> safeb ys = true.
+Lemma safe_from_after xs : forall p t ys, safe_from p (xs ++ t :: ys) = true -> safe_from (pk_of t) ys = true.
 Proof.
-  induction xs as [|x xs IH]; intros H.
-  - cbn [app safeb] in H. apply andb_true_iff in H. apply H.
-  - cbn [app safeb] in H. apply andb_true_iff in H. apply IH. apply H.
+  induction xs as [|x xs IH]; intros p t ys H.
+  - cbn [app safe_from] in H. apply andb_true_iff in H. apply H.
+  - cbn [app safe_from] in H. apply andb_true_iff in H. eapply IH. apply H.
 Qed.
+
+(* the tail after any token that is neither an identifier nor `.`/`->` is safe on its own: every
+   sub-expression of a printed expression starts after such a token *)
+Lemma safe_after xs t ys : pk_of t = PkNone -> safeb (xs ++ t :: ys) = true -> safeb ys = true.
+Proof. intros Hk H. unfold safeb in *. rewrite <- Hk. eapply safe_from_after. exact H. Qed.
 
 Lemma safe_var x R : safeb (TId x :: R) = true ->
-  forall r1, R = TOp LtO :: r1 -> generic_scan 1 r1 = false.
+  forall r1, R = TOp LtO :: r1 -> id_upper x = false /\ generic_scan 1 r1 = false.
 Proof.
-  intros H r1 ->. cbn [safeb] in H. apply andb_true_iff in H. destruct H as [H _].
-  apply negb_true_iff in H. exact H.
+  intros H r1 ->. unfold safeb in H. cbn [safe_from hazard] in H. apply andb_true_iff in H. destruct H as [H _].
+  apply negb_true_iff in H. apply orb_false_iff in H. exact H.
 Qed.
 
-(* since fix 34a2124 a parenthesis followed by a (non-type) identifier is never a cast *)
-Lemma cast_type_none r : cast_type r = None.
-Proof. destruct r as [|t r]; [reflexivity|]. destruct t; reflexivity. Qed.
+(* first token of a printed expression *)
+Definition head_ok (ts : list tok) : bool :=
+  match ts with
+  | (TNum _ | TId _ | TLP | TNot | TTilde | TInc | TDec | TOp Sub | TOp BAnd | TOp Mul) :: _ => true
+  | _ => false
+  end.
+
+(* a primary parenthesis around a printed expression is a cast only through hazard (d) *)
+Lemma safe_paren ts : head_ok ts = true -> safeb (TLP :: ts) = true -> cast_type ts = None.
+Proof.
+  intros Hh H. unfold safeb in H. cbn [safe_from hazard] in H. apply andb_true_iff in H. destruct H as [H _].
+  apply negb_true_iff in H.
+  destruct ts as [|t r]; [reflexivity|]. destruct t; try reflexivity; try discriminate Hh.
+  destruct (cast_type (TId x :: r)); [discriminate H|reflexivity].
+Qed.
+
+(* sizeof ( printed expression ) takes its operand for a type only through hazard (c) *)
+Lemma safe_sizeof x ts : is_sizeof x = true -> head_ok ts = true -> safeb (TId x :: TLP :: ts) = true ->
+  sizeof_type_start ts = false.
+Proof.
+  intros Hz Hh H. unfold safeb in H. cbn [safe_from hazard] in H. apply andb_true_iff in H. destruct H as [H _].
+  apply negb_true_iff in H.
+  destruct ts as [|t r]; [reflexivity|]. destruct t; try reflexivity; try discriminate Hh.
+  rewrite Hz in H. exact H.
+Qed.
+
+(* the type of a source cast is recognised by the look-ahead *)
+Lemma ty_stars_wf st : forall acc r, forallb is_star st = true ->
+  ty_stars acc (st ++ TRP :: r) = Some (acc ++ st, TRP :: r).
+Proof.
+  induction st as [|t st IH]; intros acc r H.
+  - cbn [app]. rewrite app_nil_r. reflexivity.
+  - cbn [forallb] in H. apply andb_true_iff in H. destruct H as [Ht Hs].
+    destruct t; try discriminate Ht. destruct o; try discriminate Ht.
+    cbn [app ty_stars]. rewrite (IH _ _ Hs). rewrite <- app_assoc. reflexivity.
+Qed.
+
+Lemma cast_type_wf ty r : wf_ty ty = true -> cast_type (ty ++ TRP :: r) = Some (ty, r).
+Proof.
+  intros H. destruct ty as [|t st]; [discriminate H|]. destruct t; try discriminate H.
+  cbn [wf_ty] in H. cbn [app cast_type]. unfold cast_from.
+  rewrite (ty_stars_wf st [TKw k] r H). cbn [app].
+  destruct st as [|t st]; [reflexivity|]. cbn [forallb] in H. apply andb_true_iff in H. destruct H as [Ht _].
+  destruct t; try discriminate Ht. reflexivity.
+Qed.
 
 (* ------------------------------------------------------------------ level tables *)
 Lemma lvl_from_bound t o : forall k, lvl_from k t o = 0 \/ (k <= lvl_from k t o < k + length t).
@@ -125,17 +182,15 @@ Lemma pr0_arrow a m : pr tbl 0 (Arrow a m) = pr tbl (L + 4) a ++ [TArrow; TId m]
 Proof. reflexivity. Qed.
 Lemma pr0_call f args : pr tbl 0 (Call f args) = TId f :: TLP :: pr_args args.
 Proof. reflexivity. Qed.
+Lemma pr0_mcall ar a m args :
+  pr tbl 0 (MCall ar a m args) = pr tbl (L + 4) a ++ (if ar then TArrow else TDot) :: TId m :: TLP :: pr_args args.
+Proof. reflexivity. Qed.
+Lemma pr0_cast ty a : pr tbl 0 (Cast ty a) = TLP :: ty ++ TRP :: pr tbl (L + 2) a.
+Proof. reflexivity. Qed.
 Lemma pr0_tern c a b : pr tbl 0 (Tern c a b) = pr tbl 2 c ++ TQ :: pr tbl 1 a ++ TColon :: pr tbl 1 b.
 Proof. reflexivity. Qed.
 Lemma pr0_asg o l r : pr tbl 0 (Asg o l r) = pr tbl 1 l ++ TAsg o :: pr tbl 0 r.
 Proof. reflexivity. Qed.
-
-(* first token of a printed expression *)
-Definition head_ok (ts : list tok) : bool :=
-  match ts with
-  | (TNum _ | TId _ | TLP | TNot | TTilde | TInc | TDec | TOp Sub | TOp BAnd | TOp Mul) :: _ => true
-  | _ => false
-  end.
 
 Lemma head_ok_app xs ys : head_ok xs = true -> head_ok (xs ++ ys) = true.
 Proof. destruct xs as [|t xs]; [discriminate|]. cbn [app]. auto. Qed.
@@ -151,6 +206,7 @@ Proof.
   - rewrite pr0_idx. apply head_ok_app, IHe1.
   - rewrite pr0_mem. apply head_ok_app, IHe.
   - rewrite pr0_arrow. apply head_ok_app, IHe.
+  - rewrite pr0_mcall. apply head_ok_app, IHe.
   - rewrite pr0_tern. apply head_ok_app, IHe1.
   - rewrite pr0_asg. apply head_ok_app, IHe1.
   - change (pr tbl 0 (EProp e)) with (pr tbl 2 e ++ [TQ]). apply head_ok_app, IHe.
@@ -175,6 +231,7 @@ Proof.
   - rewrite pr0_idx, <- app_assoc. apply IHe1. lia.
   - rewrite pr0_mem, <- app_assoc. apply IHe. lia.
   - rewrite pr0_arrow, <- app_assoc. apply IHe. lia.
+  - rewrite pr0_mcall, <- app_assoc. apply IHe. lia.
   - change (pr tbl 0 (Generic n e)) with (pr tbl (L + 5) e). apply IHe. lia.
 Qed.
 
@@ -320,8 +377,8 @@ Proof. intros HO rest Hf Hs. apply (P_le e HO 0 rest); try lia; assumption. Qed.
 Lemma paren_prim e : P0 e -> forall R, safeb (TLP :: pr tbl 0 e ++ TRP :: R) = true ->
   PPrim tbl (TLP :: pr tbl 0 e ++ TRP :: R) (strip e, R).
 Proof.
-  intros H0 R Hs. apply R_prim_paren; [apply cast_type_none|].
-  apply H0; [reflexivity|]. apply (safe_after [] TLP). exact Hs.
+  intros H0 R Hs. apply R_prim_paren; [apply safe_paren; [apply head_ok_app, pr_head|exact Hs]|].
+  apply H0; [reflexivity|]. apply (safe_after [] TLP); [reflexivity|exact Hs].
 Qed.
 
 Lemma P_gt e : P0 e -> forall c rest, lev tbl e < c -> c <= L + 3 -> folb tbl c rest = true ->
@@ -417,9 +474,9 @@ Proof.
 Qed.
 
 (* ------------------------------------------------------------------ argument lists *)
-Lemma args_parse args : Forall (fun a => wf a = true -> Pst a /\ Sst a /\ Qst a) args ->
+Lemma args_parse trail args : Forall (fun a => wf a = true -> Pst a /\ Sst a /\ Qst a) args ->
   forallb wf args = true -> forall R, safeb (pr_args args ++ R) = true ->
-  PArgs tbl (pr_args args ++ R) (map strip args, R).
+  PArgs tbl trail (pr_args args ++ R) (map strip args, R).
 Proof.
   induction 1 as [|a l Ha Hl IH]; intros Hw R Hs.
   - apply R_args_nil.
@@ -430,11 +487,11 @@ Proof.
       * apply head_not_rp, head_ok_app, pr_head.
       * apply (HPa 0); [lia|reflexivity|exact Hs].
     + norm.
-      apply (R_args_cons tbl _ (strip a) (pr_args (b :: l') ++ R)).
+      apply (R_args_cons tbl trail _ (strip a) (pr_args (b :: l') ++ R)).
       * apply head_not_rp, head_ok_app, pr_head.
       * cbn [pr_args]. rewrite <- app_assoc. apply head_not_rp, head_ok_app, pr_head.
       * apply (HPa 0); [lia|reflexivity|exact Hs].
-      * apply IH; [exact Hwl|]. apply (safe_after (pr tbl 0 a) TComma). exact Hs.
+      * apply IH; [exact Hwl|]. apply (safe_after (pr tbl 0 a) TComma); [reflexivity|exact Hs].
 Qed.
 
 (* ------------------------------------------------------------------ the main induction *)
@@ -466,7 +523,7 @@ Proof.
       - cbn [folb]. fold k. apply Nat.ltb_lt. lia.
       - apply (R_loop_step tbl k _ o _ (strip e2) R); [reflexivity| |exact Hv].
         apply PCtx_to_bin; [lia|]. apply HPb; [lia|exact Hf|].
-        apply (safe_after (pr tbl (k + 1) e1) (TOp o)). exact Hs. }
+        apply (safe_after (pr tbl (k + 1) e1) (TOp o)); [reflexivity|exact Hs]. }
     apply assemble.
     + intros rest Hf Hs. cbn [lev] in *. fold k in Hf |- *.
       replace (Nat.min (k + 1) (L + 3)) with (k + 1) by lia.
@@ -487,7 +544,7 @@ Proof.
       rewrite PCtx_un. rewrite pr0_un in *. cbn [app strip] in *.
       apply (R_un tbl _ u (pr tbl (L + 2) e ++ rest)); [destruct u; reflexivity|].
       rewrite <- PCtx_un. apply HPa; [lia|exact Hf|].
-      apply (safe_after [] (utok u)). exact Hs.
+      apply (safe_after [] (utok u)); [destruct u; reflexivity|exact Hs].
     + cbn [lev]. lia.
     + intros k R v Hk E. cbn [lev] in E. lia.
   - (* Pre *)
@@ -496,7 +553,7 @@ Proof.
     + intros rest Hf Hs. cbn [lev] in *. replace (Nat.min (L + 2) (L + 3)) with (L + 2) by lia.
       rewrite PCtx_un. rewrite pr0_pre in *. cbn [app strip] in *.
       apply R_pre. rewrite <- PCtx_pf. apply HPa; [lia|apply (fol_mono (L + 2)); [lia|exact Hf]|].
-      apply (safe_after [] (itok d)). exact Hs.
+      apply (safe_after [] (itok d)); [destruct d; reflexivity|exact Hs].
     + cbn [lev]. lia.
     + intros k R v Hk E. cbn [lev] in E. lia.
   - (* Post *)
@@ -520,7 +577,7 @@ Proof.
     apply HQa; [reflexivity|exact Hs|].
     apply (R_post_idx tbl _ _ (strip e2) R); [|exact Hv].
     apply (HPi 0); [lia|reflexivity|].
-    apply (safe_after (pr tbl (L + 4) e1) TLB). exact Hs.
+    apply (safe_after (pr tbl (L + 4) e1) TLB); [reflexivity|exact Hs].
   - (* Mem *)
     destruct (IHe Hw) as (_ & _ & HQa).
     apply assemble_chain; [reflexivity|].
@@ -534,11 +591,32 @@ Proof.
     rewrite pr0_arrow in *. cbn [strip] in *. norm.
     apply HQa; [reflexivity|exact Hs|]. apply R_post_arrow; assumption.
   - (* Call *)
+    apply andb_true_iff in Hw. destruct Hw as [Hw Hz].
     apply assemble_prim; [cbn [lev]; lia|]. intros R Hl Hs.
     rewrite pr0_call in *. cbn [app strip] in *.
-    apply R_prim_call; [|exact Hl].
-    apply args_parse; [exact H|exact Hw|].
-    apply (safe_after [TId f] TLP). exact Hs.
+    destruct (is_sizeof f) eqn:Ez.
+    + (* sizeof ( e ) *)
+      destruct args as [|a [|b l]]; try discriminate Hz.
+      cbn [pr_args map] in *. norm.
+      inversion H as [|a' l' Ha _]; subst.
+      cbn [forallb] in Hw. rewrite andb_true_r in Hw. destruct (Ha Hw) as (HPa & _ & _).
+      apply R_prim_sizeof; [exact Ez| |].
+      * apply (safe_sizeof f); [exact Ez|apply head_ok_app, pr_head|exact Hs].
+      * apply (HPa 0); [lia|reflexivity|]. apply (safe_after [TId f] TLP); [reflexivity|exact Hs].
+    + apply R_prim_call; [exact Ez| |exact Hl].
+      apply args_parse; [exact H|exact Hw|].
+      apply (safe_after [TId f] TLP); [reflexivity|exact Hs].
+  - (* MCall *)
+    apply andb_true_iff in Hw. destruct Hw as [Hwa Hwl].
+    destruct (IHe Hwa) as (_ & _ & HQa).
+    apply assemble_chain; [reflexivity|].
+    intros R v Hl Hs Hv. rewrite pr_le in * by (cbn [lev]; lia).
+    rewrite pr0_mcall in *. cbn [strip] in *. norm.
+    apply HQa; [destruct ar; reflexivity|exact Hs|].
+    apply (R_post_mcall tbl ar _ m _ (map strip args) R); [|exact Hv].
+    apply args_parse; [exact H|exact Hwl|].
+    apply (safe_after (pr tbl (L + 4) e ++ [(if ar then TArrow else TDot); TId m]) TLP); [reflexivity|].
+    rewrite <- app_assoc. exact Hs.
   - (* Tern *)
     apply andb_true_iff in Hw. destruct Hw as [Hw Hwb]. apply andb_true_iff in Hw. destruct Hw as [Hwc Hwa].
     destruct (IHe1 Hwc) as (HPc & _ & _). destruct (IHe2 Hwa) as (HPa & _ & _).
@@ -548,13 +626,13 @@ Proof.
       change (PTern tbl (pr tbl 0 (Tern e1 e2 e3) ++ rest) (strip (Tern e1 e2 e3), rest)).
       rewrite pr0_tern in *. cbn [strip] in *. norm.
       assert (Hs2 : safeb (pr tbl 1 e2 ++ TColon :: pr tbl 1 e3 ++ rest) = true).
-      { apply (safe_after (pr tbl 2 e1) TQ). exact Hs. }
+      { apply (safe_after (pr tbl 2 e1) TQ); [reflexivity|exact Hs]. }
       apply (R_tern tbl _ (strip e1) (pr tbl 1 e2 ++ TColon :: pr tbl 1 e3 ++ rest)
                     (strip e2) (pr tbl 1 e3 ++ rest) (strip e3) rest).
       * rewrite <- (PCtx_bin 2) by lia. apply HPc; [lia|reflexivity|exact Hs].
       * apply head_not_closer, head_ok_app, pr_head.
       * apply (HPa 1); [lia|reflexivity|exact Hs2].
-      * apply (HPb 1); [lia|exact Hf|]. apply (safe_after (pr tbl 1 e2) TColon). exact Hs2.
+      * apply (HPb 1); [lia|exact Hf|]. apply (safe_after (pr tbl 1 e2) TColon); [reflexivity|exact Hs2].
     + cbn [lev]. lia.
     + intros k R v Hk E. cbn [lev] in E. lia.
   - (* Asg *)
@@ -566,10 +644,39 @@ Proof.
       rewrite pr0_asg in *. cbn [strip] in *. norm.
       apply (R_assign tbl _ (strip e1) o (pr tbl 0 e2 ++ rest) (strip e2) rest).
       * apply (HPl 1); [lia|reflexivity|exact Hs].
-      * apply (HPr 0); [lia|exact Hf|]. apply (safe_after (pr tbl 1 e1) (TAsg o)). exact Hs.
+      * apply (HPr 0); [lia|exact Hf|]. apply (safe_after (pr tbl 1 e1) (TAsg o)); [reflexivity|exact Hs].
       * exact Hv.
     + cbn [lev]. lia.
     + intros k R v Hk E. cbn [lev] in E. lia.
+  - (* Cast *)
+    apply andb_true_iff in Hw. destruct Hw as [Hty Hwa].
+    destruct (IHe Hwa) as (HPa & _ & _).
+    apply assemble.
+    + intros rest Hf Hs. cbn [lev] in *. replace (Nat.min (L + 2) (L + 3)) with (L + 2) by lia.
+      rewrite PCtx_un. rewrite pr0_cast in *. cbn [strip] in *. norm.
+      apply R_un_post; [reflexivity|].
+      apply (postfix_intro tbl _ (Cast ty (strip e)) rest).
+      * apply (R_prim_cast tbl _ ty (pr tbl (L + 2) e ++ rest)); [apply cast_type_wf; exact Hty|].
+        rewrite <- PCtx_un. apply HPa; [lia|exact Hf|].
+        apply (safe_after (TLP :: ty) TRP); [reflexivity|exact Hs].
+      * apply R_post_stop. apply (fol_postfix (L + 2)). exact Hf.
+    + cbn [lev]. lia.
+    + intros k R v Hk E. cbn [lev] in E. lia.
+Qed.
+
+(* ------------------------------------------------------------------ a parenthesised identifier *)
+(* `( x )` with an identifier that names no declared type is the variable x - for EVERY spelling of the
+   name (upper-case initial or not) and EVERY continuation r of the stream, safe or not: the cast
+   look-ahead consults the declared types only *)
+Lemma paren_ident_operand x r : id_type x = false -> PPrim tbl (TLP :: TId x :: TRP :: r) (Var x, r).
+Proof.
+  intros Ht. pose proof L_pos as HL. apply R_prim_paren.
+  - cbn [cast_type]. rewrite Ht. reflexivity.
+  - change (PCtx 0 (TId x :: TRP :: r) (Var x, TRP :: r)).
+    apply (descend (L + 3) 0 (L + 3)); [lia|lia| |reflexivity|intros _; reflexivity].
+    rewrite PCtx_pf. apply (postfix_intro tbl _ (Var x) (TRP :: r)).
+    + apply R_prim_var; [reflexivity|]. intros r1 E. discriminate E.
+    + apply R_post_stop. reflexivity.
 Qed.
 
 End RT.
